@@ -882,6 +882,48 @@ theorem restart_witness :
       = some (wData.set 30 1) := by
   decide
 
+/-! #### earlier program generations
+
+A device may have been compiled into a program before — in an earlier fast group, or by an earlier `FastSyncGroup`
+object over the same devices under another layout.  Generation leaves nothing on the objects, so histories that contain
+generations are covered by `restart_invariant` / `restart_agree` (`hist` is arbitrary there), and the program of the
+present group is `progRun` of the present layout alone. -/
+
+theorem generation_leaves_nothing (e : Earlier) (h : e.generated = true) (caches : List PvCache) : e.leaves caches = caches := by
+  simp [Earlier.leaves, h]
+
+/-- a history of program generations only is no history -/
+theorem generated_only_history (hist : List Earlier) (h : ∀ e ∈ hist, e.generated = true) (caches0 : List PvCache) :
+    historyCaches caches0 hist = caches0 := by
+  induction hist generalizing caches0 with
+  | nil => rfl
+  | cons e es ih =>
+    simp only [historyCaches]
+    rw [generation_leaves_nothing e (h e (by simp))]
+    exact ih (fun e' he' => h e' (by simp [he'])) caches0
+
+/-- after any number of earlier generations both paths of the present group are those of fresh objects -/
+theorem generation_agree (hdr : List UInt8) (hh : hdr.length = ETHERNET_HEADER) (hist : List Earlier)
+    (hg : ∀ e ∈ hist, e.generated = true) (vars : List Linked) (ops : List Op) (py py' : PyState) (pr : ProgState)
+    (hR : Rel hdr py pr) (hB : InBounds vars py.data.length) (hF : RunFits (pr.dvs.map (·.1)) vars py ops)
+    (h : pyRun vars py ops = some py') :
+    historyCaches (List.replicate vars.length PvCache.empty) hist = List.replicate vars.length PvCache.empty ∧
+    ∃ pr', progRun vars pr ops = some pr' ∧ pr'.frame = hdr ++ py'.data ∧ pr'.dvs.map (fun m => pyGet m.1 m.2 0) = py'.dvs := by
+  refine ⟨generated_only_history hist hg _, ?_⟩
+  obtain ⟨_, pr', _, h2, h3, h4⟩ := restart_agree hdr hh hist [] vars ops py py' pr hR hB hF h
+  exact ⟨pr', h2, h3, h4⟩
+
+/-- non-vacuity, and what an address kept from an earlier generation gets wrong: the output region moved from 30 to 26;
+the program of the present layout writes Ethernet byte 26 + 14 as the Python path writes byte 26, a program compiled with
+the kept address writes byte 30 + 14 -/
+def wGenerated : Earlier := { wEarlier with generated := true }
+
+theorem generation_witness :
+    historyCaches [PvCache.empty] [wGenerated] = [PvCache.empty] ∧
+    (progRun wVars ⟨wHdr ++ wData, []⟩ [.set 0 (.const 1)]).map (·.frame) = some (wHdr ++ wData.set 26 1) ∧
+    (progRun (memoVars wGenerated.vars wVars) ⟨wHdr ++ wData, []⟩ [.set 0 (.const 1)]).map (·.frame) = some (wHdr ++ wData.set 30 1) := by
+  decide
+
 /-- two devices linked to one `PacketVar` object, both reading it -/
 def wShared : List Linked := [⟨⟨.out, 0, .fmt .B⟩, ⟨none, some 26⟩, 0, 0⟩, ⟨⟨.out, 0, .fmt .B⟩, ⟨none, some 26⟩, 0, 1⟩]
 
